@@ -12,14 +12,25 @@
    value elimination yields), by the code's own expansion along the first column.
    Also: the 2 x 2 determinant closed form; the determinant of larger matrices is the expansion along the first
    column with alternating signs; a matrix with |det| < 1e-12 is refused with the singular-matrix error.
-   NOT PROVED: that a non-zero determinant implies non-zero pivots (the link between the cofactor expansion the code
-   uses for its singularity test and the elimination) — hence the pivot hypothesis; nothing about floating-point
-   rounding: the implementation's f64 solution is compared with the exact one within 2^-30 and its residual is
-   bounded on every case; QR (Q R = A, Q^T Q = I, R upper), norm definitions and the determinant laws are checked on
-   the implementation's outputs in exact / bounded arithmetic. *)
+   C15_det_row_swap — exchanging two rows of a matrix of any size >= 2 changes the sign of the determinant the code
+   computes (the expansion along the first column is alternating: proved for neighbouring rows by induction over the
+   recursion, then for any two rows; Det_fun.v).
+   C15_det_elimination — the determinant equals the value obtained by elimination: det a = s * (product of the
+   diagonal of the U the code's LU loop leaves), s = +1 / -1 per row exchange the loop performed.  The proof follows
+   the code's pivot search (largest magnitude in the column), row exchange and row updates column by column, with no
+   assumption on the pivots (a zero pivot means the rest of the column is zero), using: the expansion is linear in
+   every row, vanishes on two equal rows, and is unchanged by adding a multiple of one row to another.
+   C15_det_nonzero_pivots / C15_pivots_nonzero_det — det a is non-zero exactly when no pivot is zero; hence
+   C15_solve_exact / C15_solve_exact_residual — WHENEVER solve answers (the code's test |det a| >= 1e-12 passed), the
+   returned matrix satisfies A X = B exactly, for every size n >= 2 and every right-hand side: the pivot hypothesis
+   of C15_solve is discharged.
+   NOT PROVED: multiplicativity of the determinant (checked on the implementation's outputs); nothing about
+   floating-point rounding: the implementation's f64 solution is compared with the exact one within 2^-30 and its
+   residual is bounded on every case; QR (Q R = A, Q^T Q = I, R upper) and the norm definitions are checked on the
+   implementation's outputs in exact / bounded arithmetic. *)
 From Coq Require Import QArith.
 Local Close Scope Q_scope.
-From ArrRs Require Import Index Axis Linsolve Linsolve_proofs Lu_sums Lu_step Lu_solve Det_tri.
+From ArrRs Require Import Index Axis Linsolve Linsolve_proofs Lu_sums Lu_step Lu_solve Det_tri Det_fun Det_elim.
 
 Theorem C15_det_2 : forall a b c d, (det [[a; b]; [c; d]] == a * d - b * c)%Q.
 Proof. exact det_2. Qed.
@@ -64,6 +75,40 @@ Proof. exact pivots_okb_ok. Qed.
 Theorem C15_lu_invariant : forall a n, dims n a -> pivots_ok a -> forall k, k <= n ->
   Inv a n k (stL (lu_state a k)) (stU (lu_state a k)) (stO (lu_state a k)).
 Proof. exact lu_state_inv. Qed.
+
+(* a row exchange changes the sign of the determinant *)
+Theorem C15_det_row_swap : forall n (m : qmat) p j, 2 <= n -> dims n m -> p < n -> j < n -> p <> j ->
+  (det (swap_rows [] m p j) == - det m)%Q.
+Proof. exact det_row_swap. Qed.
+
+(* the determinant is the value obtained by elimination: sign of the row exchanges times the product of the pivots *)
+Theorem C15_det_elimination : forall a n, 2 <= n -> dims n a ->
+  (det a == lu_sign a n * fold_left Qmult (map (fun i => qget (stU (lu a)) i i) (seq 0 n)) 1)%Q.
+Proof. exact det_elimination. Qed.
+
+Theorem C15_det_nonzero_pivots : forall a n, 2 <= n -> dims n a -> ~ (det a == 0)%Q -> pivots_ok a.
+Proof. exact det_nonzero_pivots. Qed.
+
+Theorem C15_pivots_nonzero_det : forall a n, 2 <= n -> dims n a -> pivots_ok a -> ~ (det a == 0)%Q.
+Proof. exact pivots_nonzero_det. Qed.
+
+(* SOLVE with no hypothesis on the pivots: whenever solve answers, A X = B exactly *)
+Theorem C15_solve_exact : forall a b x n k,
+  2 <= n -> dims n a -> length b = n -> (forall r, r < n -> length (nth r b []) = k) ->
+  solve a b = Ok x ->
+  (length x = n /\ forall r, r < n -> length (nth r x []) = k) /\
+  forall i j, i < n -> j < k -> (qsum (fun c => qget a i c * qget x c j) n == qget b i j)%Q.
+Proof. exact solve_exact. Qed.
+
+Theorem C15_solve_exact_residual : forall a b x n k,
+  2 <= n -> dims n a -> length b = n -> (forall r, r < n -> length (nth r b []) = k) ->
+  solve a b = Ok x -> residual_ok a x b = true.
+Proof. exact solve_exact_residual. Qed.
+
+Example C15_det_elimination_example :
+  let a := [[2;1;1];[4;3;3];[8;7;9]]%Q in
+  (det a == 4)%Q /\ (lu_sign a 3 == 1)%Q /\ (fold_left Qmult (map (fun i => qget (stU (lu a)) i i) (seq 0 3)) 1 == 4)%Q.
+Proof. exact det_elimination_example. Qed.
 
 Example C15_solve_applies :
   let a := [[2;1;1];[4;3;3];[8;7;9]]%Q in let b := [[1;0];[2;1];[3;5]]%Q in
